@@ -1,7 +1,7 @@
 """C01 - every honestly produced signature and possession proof verifies; bad keys are refused."""
 from hypothesis import strategies as st
 
-from vf.harness import HarnessError, Task, drive, hx, unhx
+from vf.harness import HarnessError, Task, drive, hx, run_cases_optimized, unhx
 from vf.model import bls12381 as B
 from vf.model import blssig
 from vf.props import _sig_common as sc
@@ -21,7 +21,7 @@ ASSUMPTIONS = ["model decoder and model scalar multiplication (vf/model/bls12381
                "condition; everything else is a round trip through the library itself"]
 ENGINE = "hypothesis"
 TECHNIQUE = ("property-based testing (Hypothesis): sign/verify and prove/verify round trips through the public API with an independent-model side condition on the public key")
-_REQ = ["rt:keyword_arguments", "reject:keyword_argument", "rt:sk=curve_parameter_related", "rt:basic", "rt:aug", "rt:pop", "pop", "reject:int", "reject:type", "reject:numeric_twin_after_use", "keygen", "rt:sk=boundary",
+_REQ = ["python_-O:cases", "rt:keyword_arguments", "reject:keyword_argument", "rt:sk=curve_parameter_related", "rt:basic", "rt:aug", "rt:pop", "pop", "reject:int", "reject:type", "reject:numeric_twin_after_use", "keygen", "rt:sk=boundary",
         "rt:sk>=200b", "rt:msg=empty", "rt:msg=56-64", "rt:msg=65-1024"]
 REQUIRED_LABELS = {"quick": _REQ, "thorough": _REQ + ["rt:msg=>1KiB"]}
 
@@ -235,6 +235,14 @@ def t_reject(ctx):
             for kind in ("float", "fraction", "decimal", "complex"):
                 for k in ((1, 5) if entry != "SkToPk" else (1, 2, 5, 1 << 52, 12345)):
                     o_reject_after_use(ctx, {"suite": suite, "entry": entry, "k": k, "twin": kind})
+    # the refusals again in an interpreter started with -O (validation written as `assert` vanishes there)
+    jobs = [{"sub": "reject", "case": {"suite": suite, "entry": entry, "bad_int": v}}
+            for suite in sc.SUITES for entry in ("SkToPk", "Sign", "PopProve") for v in sc.BAD_SKS]
+    jobs += [{"sub": "reject", "case": {"suite": suite, "entry": "SkToPk", "bad_obj": i}}
+             for suite in sc.SUITES for i in range(len(sc.BAD_SK_OBJECTS))]
+    jobs += [{"sub": "roundtrip", "case": {"suite": suite, "sk": 12345 + i, "msg": hx(b"under -O")}}
+             for i, suite in enumerate(sc.SUITES)]
+    run_cases_optimized(ctx, "C01", jobs)
     bad = st.one_of(st.integers(-(1 << 300), 0), st.integers(R, 1 << 300),
                     st.integers(0, 1 << 40).map(lambda k: R + k), st.integers(0, 1 << 40).map(lambda k: -k))
     strat = st.fixed_dictionaries({"suite": sc.s_suite(), "entry": st.sampled_from(["SkToPk", "Sign", "PopProve"]),
